@@ -3,6 +3,12 @@
                                                get_bases_in_mro (all but last) (last)
      M <l> <ll>        singleton elements, sequence list: prints merge_py_gen (mem . sing) seqs
      L <ll> <ll> c n   table, attrs, class, name: prints lookup_c | lookup_py false | lookup_py true
+     S <ll> <ll> k c cur n   table, attrs, k = 0 instance of c / 1 class object c, calling class, name:
+                       prints super_c | super_py false | super_py true
+     I <ll> <ll> <ll> <inits> c n   table, attrs, hooks, inits (count, then per class: kind <l>), class, name:
+                       prints read_inst_c | read_inst_py false | read_inst_py true   (H hook c / I c / C c / -)
+     G <gt>            Generic table (count, then per class: count, then class tag pairs): prints
+                       gmros_c | gproject (gmros_py) | gmros_c_py_reading | same_reading_table | gmros_py (class.tag entries)
    <l>  = len x1 .. xlen      <ll> = count <l> ... <l>
    results:  res = "0 x.." (Ok) | "1" (Reject) | "2" (OutOfFuel) | "3" (Crash)
              table = "0" | "1 i" | "2 i"  followed by " ; mro" per created class *)
@@ -52,6 +58,41 @@ let () =
          let n = nat_of_int (next ()) in
          print_endline (String.concat " | " [s_opt (lookup_c h attrs c n); s_opt (lookup_py false h attrs c n);
                                              s_opt (lookup_py true h attrs c n)])
+       | "S" ->
+         let h = rd_ll () in
+         let attrs = rd_ll () in
+         let k = next () in
+         let c = nat_of_int (next ()) in
+         let cur = nat_of_int (next ()) in
+         let n = nat_of_int (next ()) in
+         let o = if k = 0 then SInst c else SCls c in
+         print_endline (String.concat " | " [s_opt (super_c h attrs o cur n); s_opt (super_py false h attrs o cur n);
+                                             s_opt (super_py true h attrs o cur n)])
+       | "I" ->
+         let h = rd_ll () in
+         let attrs = rd_ll () in
+         let hooks = rd_ll () in
+         let ni = next () in
+         let inits = List.init ni (fun _ -> let k = nat_of_int (next ()) in let l = rd_l () in (k, l)) in
+         let c = nat_of_int (next ()) in
+         let n = nat_of_int (next ()) in
+         let s_a = function
+           | AHook (hk, c) -> "H " ^ string_of_int (int_of_nat hk) ^ " " ^ string_of_int (int_of_nat c)
+           | AInst c -> "I " ^ string_of_int (int_of_nat c)
+           | ACls c -> "C " ^ string_of_int (int_of_nat c)
+           | AMissing -> "-" in
+         print_endline (String.concat " | " [s_a (read_inst_c h attrs hooks inits c n);
+                                             s_a (read_inst_py false h attrs hooks inits c n);
+                                             s_a (read_inst_py true h attrs hooks inits c n)])
+       | "G" ->
+         let ng = next () in
+         let g = List.init ng (fun _ -> let k = next () in
+                                List.init k (fun _ -> let c = nat_of_int (next ()) in let t = nat_of_int (next ()) in (c, t))) in
+         let s_e (c, t) = string_of_int (int_of_nat c) ^ "." ^ string_of_int (int_of_nat t) in
+         let raw = match gmros_py g with
+           | GOk m | GErr (m, _) | GBad (m, _) -> String.concat " ; " (List.map (fun l -> String.concat " " (List.map s_e l)) m) in
+         print_endline (String.concat " | " [s_tab (gmros_c g); s_tab (gproject (gmros_py g)); s_tab (gmros_c_py_reading g);
+                                             (if same_reading_table g then "1" else "0"); raw])
        | t -> failwith ("bad kind " ^ t))
     done
   with End_of_file -> ()
